@@ -41,16 +41,15 @@ theorem cloneNegDoc_not_decoOk : ¬ DecoOk cloneNegDoc.root := by
   simp only [cloneNegDoc, DecoOk, DecoOkList, PStyle.DecoOk, plainSt]
   decide +kernel
 
-/-- **`find_earlier_page_break` keeps the bottom decoration and the stale height of the box it cuts**
-(clause "a fragmented box's own bottom padding/border also fits" is false of the layout, with
-`box-decoration-break: slice` and only non-negative lengths). 50px pages; a block with `padding-bottom: 5px` and
-`break-after: avoid-page` holding five 10px lines, then a one-line paragraph. The block is first laid out
-whole (its five lines fit, its padding does not: second layout with `bottom_space = 5`, four lines, fragment
-stretched); the next paragraph does not fit, the break before it is avoided, `find_earlier_page_break` cuts the
-block's paragraph after line 3 and rebuilds the block with `child.copy_with_children(...)`: the copy keeps
-`padding_bottom = 5` (a fragment that is continued must lose it) and the height 50 of the five-line layout, so
-its border box ends at 55, below the page bottom, and the box is continued on the next page.
-Reproduced on WeasyPrint itself (same numbers): `py/props/c03.py::earlier_break_keeps_decoration`. -/
+/-- **Regression (repaired by 24ce8bf; was the finding `earlier-break-keeps-bottom-decoration`)**: the box cut by
+`find_earlier_page_break` loses its bottom decoration. 50px pages; a block with `padding-bottom: 5px` and
+`break-after: avoid-page` holding five 10px lines, then a one-line paragraph. The block is first laid out whole,
+the next paragraph does not fit, the break before it is avoided, `find_earlier_page_break` cuts the block's
+paragraph after line 3 and rebuilds the block with `child.copy_with_children(...)`; before the repair the copy kept
+`padding_bottom = 5` and its border box ended at 55, below the page bottom. Now `remove_decoration(end=True)`
+removes the padding: the border box ends at 50. (The height 50 of the five-line layout is still kept - it
+happens to fill the page.) Same numbers on WeasyPrint itself: `py/props/c03.py::earlier_break_keeps_decoration`
+returns False. -/
 def earlierDecoDoc : Doc :=
   { pageH := 50, rootLtr := true,
     root := .block 0 { plainSt with isRoot := true }
@@ -70,39 +69,28 @@ def box2Fragments (d : Doc) : Option (List (List Nat × Rat × Rat × Rat × Boo
         | _ => none)
     | _ => [])).flatten)
 
-theorem earlier_break_keeps_bottom_decoration :
-    box2Fragments earlierDecoDoc = some [([0, 1, 2, 3], 5, 50, 55, true), ([4], 5, 10, 15, false)] := by
+theorem earlier_break_removes_bottom_decoration :
+    box2Fragments earlierDecoDoc = some [([0, 1, 2, 3], 0, 50, 50, true), ([4], 5, 10, 15, false)] := by
   decide +kernel
 
-/-- The cause, for every fragment: the box rebuilt by `find_earlier_page_break`
-(`child.copy_with_children(new_grand_children)`) keeps the whole used geometry of the box it replaces — position,
-margins, paddings, borders *and height* — although it now holds fewer lines and is continued on the next page. -/
-theorem earlier_break_keeps_geometry (x x' : Frag) (r : Resume) (h : findEarlierFrag x = some (x', r)) :
-    x'.geo = x.geo ∧ x'.st = x.st := by
-  cases x with
-  | para id idx st n g lines =>
-    simp only [findEarlierFrag] at h
-    unfold findEarlierPara at h
-    split at h
-    · cases h
-    · dsimp only at h
-      split at h
-      · cases h
-      · split at h
-        · simp only [Option.some.injEq, Prod.mk.injEq] at h
-          obtain ⟨rfl, _⟩ := h
-          exact ⟨rfl, rfl⟩
-        · cases h
-  | block id idx st g kids =>
-    simp only [findEarlierFrag] at h
-    split at h
-    · simp only [Option.some.injEq, Prod.mk.injEq] at h
-      obtain ⟨rfl, _⟩ := h
-      exact ⟨rfl, rfl⟩
-    · cases h
+/-- For every fragment: what `remove_decoration(start=False, end=True)` does to the box rebuilt by
+`find_earlier_page_break` — bottom margin, padding and border become 0 (unless `box-decoration-break: clone`),
+position, top decoration and *height* are kept. -/
+theorem cutEnd_geo (f : Frag) (h : f.st.clone = false) :
+    f.cutEnd.geo.mb = 0 ∧ f.cutEnd.geo.pb = 0 ∧ f.cutEnd.geo.bb = 0 ∧ f.cutEnd.geo.h = f.geo.h ∧
+    f.cutEnd.geo.contentBoxY = f.geo.contentBoxY ∧ f.cutEnd.st = f.st := by
+  cases f <;> simp_all [Frag.cutEnd, Geo.cutBottom, Frag.geo, Frag.st, Geo.contentBoxY]
 
-/-- The hypotheses of the line theorem hold here (`DecoOk`): the lines themselves fit; it is the box's own
-decoration that does not. -/
+theorem cutEnd_clone (f : Frag) (h : f.st.clone = true) : f.cutEnd = f := by
+  cases f <;> simp_all [Frag.cutEnd, Geo.cutBottom, Frag.st]
+
+/-- Hence the border box of a cut box ends where its content box ends. -/
+theorem cutEnd_border_bottom (f : Frag) (h : f.st.clone = false) :
+    f.cutEnd.geo.borderBoxY + f.cutEnd.geo.borderHeight = f.geo.contentBoxY + f.geo.h := by
+  cases f <;> simp_all [Frag.cutEnd, Geo.cutBottom, Frag.geo, Frag.st, Geo.contentBoxY, Geo.borderBoxY,
+    Geo.borderHeight] <;> grind
+
+/-- The document is within the hypotheses of the line theorems (`DecoOk`). -/
 theorem earlierDecoDoc_decoOk : DecoOk earlierDecoDoc.root := by
   simp only [earlierDecoDoc, DecoOk, DecoOkList, PStyle.DecoOk, plainSt]
   decide +kernel
